@@ -429,4 +429,7 @@ def run(ctx, progs):
         from . import c13
         from .poswrite import PosDiscipline
         c13.r3_reclaim_boundary(ctx, P, PosDiscipline(P), R="C02.R5")
+        from . import c16, c10 as _c10
+        c16.r1_partitions(ctx, P, R="C02.R6")
+        _c10.r1d_aligner_direction(ctx, P, PosDiscipline(P), R="C02.R7")
     ctx.config = None
